@@ -34,6 +34,8 @@ use std::sync::{Arc, Condvar, Mutex};
 use std::time::Duration;
 
 pub const MAX_OPTS: usize = 12;
+/// a busy worker hands over part of its tree at most once per this many executions
+const DONATE_EVERY: u64 = 400;
 
 #[derive(Clone, Copy, Debug)]
 pub struct Limits {
@@ -141,6 +143,7 @@ struct Core {
     execs: u64,
     max_depth: u64,
     max_preempt_seen: u32,
+    next_donation: u64,
 }
 
 impl Core {
@@ -164,6 +167,7 @@ impl Core {
             execs: 0,
             max_depth: 0,
             max_preempt_seen: 0,
+            next_donation: DONATE_EVERY,
         }
     }
 
@@ -403,17 +407,37 @@ impl Accum {
     }
 }
 
+/// Where a worker gets its work items from and where finished ones go. One `Runner` (one
+/// continuation pool) serves all the items a worker processes: creating a runner per item
+/// costs several mmap/munmap calls, which dominates when there are 10^5 small configurations.
+pub trait Source {
+    fn next(&self) -> Option<(WorkItem, Limits, Arc<dyn Workload>, Option<Vec<u8>>)>;
+    fn done(&self, cfg: usize, acc: Accum);
+}
+
+thread_local! {
+    static CURRENT: RefCell<Option<Arc<dyn Workload>>> = const { RefCell::new(None) };
+}
+
 struct Shared {
-    core: RefCell<Core>,
+    core: RefCell<Option<Core>>,
     acc: RefCell<Accum>,
-    workload: Arc<dyn Workload>,
+    source: Rc<dyn Source>,
     pool: Option<Arc<Pool>>,
 }
 
 impl Shared {
+    fn workload(&self) -> Arc<dyn Workload> {
+        CURRENT.with(|c| c.borrow().clone()).expect("no current workload")
+    }
+
     fn finish_exec(&self, forced_end: Option<End>) {
         let (end, sched) = {
-            let mut c = self.core.borrow_mut();
+            let mut g = self.core.borrow_mut();
+            let c = match g.as_mut() {
+                Some(c) => c,
+                None => return,
+            };
             if !c.in_exec {
                 return;
             }
@@ -423,8 +447,16 @@ impl Shared {
             if d > c.max_depth {
                 c.max_depth = d;
             }
-            let end = forced_end.or_else(|| c.end.take()).unwrap_or(End::Completed);
-            c.end = None;
+            // If we stopped the execution ourselves (horizon / lone spinner) that is the verdict,
+            // even when shuttle's teardown of the stopped tasks then panicked: a catch_unwind on
+            // a task stack (the hook's thread shim) may swallow the teardown unwind and run on.
+            let own = c.end.take();
+            let end = match (own, forced_end) {
+                (Some(e @ (End::Horizon | End::LoneSpin(_) | End::Diverged(_))), _) => e,
+                (_, Some(f)) => f,
+                (Some(e), None) => e,
+                (None, None) => End::Completed,
+            };
             if c.first_exec_too_short() {
                 let msg = format!(
                     "uncontrolled nondeterminism: execution ended at depth {} inside the donated prefix of length {}",
@@ -437,8 +469,16 @@ impl Shared {
         };
         let mut acc = self.acc.borrow_mut();
         let n = acc.execs + 1;
+        if n % 50_000 == 0 && std::env::var_os("VSCHED_TRACE").is_some() {
+            let g = self.core.borrow();
+            let c = g.as_ref().unwrap();
+            crate::elog(&format!(
+                "[trace] cfg {} item(prefix {} lo {} hi {:?}) execs {} stack {} last end {:?} len {}",
+                c.item.cfg, c.item.prefix.len(), c.item.lo, c.item.hi, n, c.stack.len(), end, sched.len()
+            ));
+        }
         let want = n.is_power_of_two() && n <= 4096;
-        let rep = self.workload.after(&end, &sched, want);
+        let rep = self.workload().after(&end, &sched, want);
         acc.execs += 1;
         *acc.ends.entry(end.class()).or_default() += 1;
         acc.outcomes.insert(rep.outcome);
@@ -470,8 +510,30 @@ impl Shared {
                 }
             }
         }
-        let mut c = self.core.borrow_mut();
-        c.sched = sched;
+        if let Some(c) = self.core.borrow_mut().as_mut() {
+            c.sched = sched;
+        }
+    }
+
+    /// The current item is exhausted (or broken): hand its numbers to the source.
+    fn close_item(&self) {
+        let core = match self.core.borrow_mut().take() {
+            Some(c) => c,
+            None => return,
+        };
+        let mut acc = self.acc.replace(Accum::default());
+        acc.states = core.new_states + core.execs; // scheduling points created here + one leaf per execution
+        acc.max_depth = core.max_depth;
+        acc.max_preempt = core.max_preempt_seen;
+        if acc.fatal.is_none() {
+            acc.fatal = core.fatal.clone();
+        }
+        if acc.fatal.is_some() {
+            if let Some(p) = &self.pool {
+                p.stop.store(true, Ordering::SeqCst);
+            }
+        }
+        self.source.done(core.item.cfg, acc);
     }
 }
 
@@ -487,43 +549,75 @@ impl Scheduler for Sched {
     fn new_execution(&mut self) -> Option<Schedule> {
         let sh = &self.0;
         sh.finish_exec(None);
-        {
-            let mut c = sh.core.borrow_mut();
-            if c.fatal.is_some() {
-                return None;
-            }
-            if let Some(pool) = &sh.pool {
-                if pool.stop.load(Ordering::Relaxed) {
-                    return None;
-                }
-                if pool.idle.load(Ordering::Relaxed) > 0 && c.replay.is_none() && !c.first {
-                    // keep the current path for ourselves; hand over the shallowest open alternatives
-                    if let Some(item) = c.donate() {
-                        pool.push(item);
+        loop {
+            let mut close = false;
+            {
+                let mut g = sh.core.borrow_mut();
+                if let Some(c) = g.as_mut() {
+                    if let Some(p) = &sh.pool {
+                        if c.execs % 256 == 0 && p.deadline.map_or(false, |d| std::time::Instant::now() > d) {
+                            p.capped.store(true, Ordering::SeqCst);
+                            p.stop.store(true, Ordering::SeqCst);
+                        }
+                    }
+                    let stop = sh.pool.as_ref().map_or(false, |p| p.stop.load(Ordering::Relaxed));
+                    if c.fatal.is_some() || stop {
+                        close = true;
+                    } else {
+                        if let Some(pool) = &sh.pool {
+                            if c.replay.is_none()
+                                && !c.first
+                                && c.execs >= c.next_donation
+                                && pool.idle.load(Ordering::Relaxed) > 0
+                            {
+                                // keep the current path; hand over the shallowest open alternatives
+                                // (the largest unexplored subtree)
+                                if let Some(item) = c.donate() {
+                                    pool.push(item);
+                                }
+                                c.next_donation = c.execs + DONATE_EVERY;
+                            }
+                        }
+                        if !c.first && (c.replay.is_some() || !c.backtrack()) {
+                            close = true;
+                        } else {
+                            c.first = false;
+                            c.depth = 0;
+                            c.preempt = 0;
+                            c.steps = 0;
+                            c.lone = 0;
+                            c.lone_task = u8::MAX;
+                            c.sched.clear();
+                            c.end = None;
+                            c.in_exec = true;
+                        }
+                    }
+                } else {
+                    // no current item: fetch one
+                    match sh.source.next() {
+                        None => return None,
+                        Some((item, lim, wl, replay)) => {
+                            CURRENT.with(|c| *c.borrow_mut() = Some(wl));
+                            *g = Some(Core::new(lim, item, replay));
+                            continue;
+                        }
                     }
                 }
             }
-            if !c.first {
-                if c.replay.is_some() || !c.backtrack() {
-                    return None;
-                }
+            if close {
+                sh.close_item();
+                continue;
             }
-            c.first = false;
-            c.depth = 0;
-            c.preempt = 0;
-            c.steps = 0;
-            c.lone = 0;
-            c.lone_task = u8::MAX;
-            c.sched.clear();
-            c.end = None;
-            c.in_exec = true;
+            sh.workload().before();
+            return Some(Schedule::new(0));
         }
-        sh.workload.before();
-        Some(Schedule::new(0))
     }
 
     fn next_task(&mut self, runnable: &[&Task], current: Option<TaskId>, is_yielding: bool) -> Option<TaskId> {
-        self.0.core.borrow_mut().next(runnable, current, is_yielding)
+        match self.0.core.borrow_mut().as_mut() {
+            Some(c) => c.next(runnable, current, is_yielding),
+            None => None,
+        }
     }
 
     fn next_u64(&mut self) -> u64 {
@@ -541,6 +635,17 @@ pub fn shuttle_config() -> shuttle::Config {
     c
 }
 
+/// A stopped execution (horizon / lone spinner) is torn down by unwinding every unfinished
+/// task with a non-panic payload. A `catch_unwind` in a task body must let that through.
+/// While that happens no task is current.
+pub fn rethrow_if_teardown(p: Box<dyn std::any::Any + Send>) -> Box<dyn std::any::Any + Send> {
+    if shuttle::current::get_current_task().is_none() {
+        // the original payload must reach the coroutine root unchanged
+        std::panic::resume_unwind(p);
+    }
+    p
+}
+
 pub fn panic_message(p: &(dyn std::any::Any + Send)) -> String {
     if let Some(s) = p.downcast_ref::<&str>() {
         s.to_string()
@@ -551,24 +656,18 @@ pub fn panic_message(p: &(dyn std::any::Any + Send)) -> String {
     }
 }
 
-/// Explore one work item to exhaustion (or follow one explicit schedule when `replay` is given).
-pub fn run_item(
-    item: WorkItem,
-    lim: Limits,
-    workload: Arc<dyn Workload>,
-    pool: Option<Arc<Pool>>,
-    replay: Option<Vec<u8>>,
-) -> Accum {
-    let sh = Rc::new(Shared {
-        core: RefCell::new(Core::new(lim, item, replay)),
-        acc: RefCell::new(Accum::default()),
-        workload: workload.clone(),
-        pool,
-    });
+/// Process work items from `source` until it has none left. One shuttle runner serves them
+/// all; a new one is only needed after shuttle panicked out of `run` (deadlock report).
+pub fn run_worker(source: Rc<dyn Source>, pool: Option<Arc<Pool>>) {
+    let sh = Rc::new(Shared { core: RefCell::new(None), acc: RefCell::new(Accum::default()), source, pool });
     loop {
         let runner = shuttle::Runner::new(Sched(sh.clone()), shuttle_config());
-        let w = workload.clone();
-        let r = catch_unwind(AssertUnwindSafe(|| runner.run(move || w.body())));
+        let r = catch_unwind(AssertUnwindSafe(|| {
+            runner.run(|| {
+                let w = CURRENT.with(|c| c.borrow().clone()).expect("no current workload");
+                w.body()
+            })
+        }));
         match r {
             Ok(_) => break,
             Err(p) => {
@@ -576,20 +675,35 @@ pub fn run_item(
                 let msg = panic_message(&*p);
                 let end = if msg.starts_with("deadlock!") { End::Deadlock(msg) } else { End::Panic(msg) };
                 sh.finish_exec(Some(end));
-                if sh.core.borrow().fatal.is_some() {
-                    break;
-                }
             }
         }
     }
-    let core = sh.core.borrow();
-    let mut acc = sh.acc.replace(Accum::default());
-    acc.states = core.new_states + core.execs; // internal scheduling points created here + one leaf per execution
-    acc.max_depth = core.max_depth;
-    acc.max_preempt = core.max_preempt_seen;
-    if acc.fatal.is_none() {
-        acc.fatal = core.fatal.clone();
+    CURRENT.with(|c| *c.borrow_mut() = None);
+}
+
+/// Explore one work item to exhaustion (or follow one explicit schedule when `replay` is given).
+pub fn run_item(
+    item: WorkItem,
+    lim: Limits,
+    workload: Arc<dyn Workload>,
+    _pool: Option<Arc<Pool>>,
+    replay: Option<Vec<u8>>,
+) -> Accum {
+    struct One {
+        item: RefCell<Option<(WorkItem, Limits, Arc<dyn Workload>, Option<Vec<u8>>)>>,
+        out: RefCell<Accum>,
     }
+    impl Source for One {
+        fn next(&self) -> Option<(WorkItem, Limits, Arc<dyn Workload>, Option<Vec<u8>>)> {
+            self.item.borrow_mut().take()
+        }
+        fn done(&self, _cfg: usize, acc: Accum) {
+            self.out.borrow_mut().merge(acc);
+        }
+    }
+    let one = Rc::new(One { item: RefCell::new(Some((item, lim, workload, replay))), out: RefCell::new(Accum::default()) });
+    run_worker(one.clone(), None);
+    let acc = one.out.replace(Accum::default());
     acc
 }
 
@@ -601,10 +715,13 @@ pub struct Pool {
     outstanding: AtomicUsize,
     pub idle: AtomicUsize,
     pub stop: AtomicBool,
+    /// wall-clock guard against a runaway exploration; hitting it is reported, never silent
+    pub deadline: Option<std::time::Instant>,
+    pub capped: AtomicBool,
 }
 
 impl Pool {
-    pub fn new(items: Vec<WorkItem>) -> Arc<Self> {
+    pub fn new(items: Vec<WorkItem>, deadline: Option<std::time::Instant>) -> Arc<Self> {
         let n = items.len();
         Arc::new(Pool {
             q: Mutex::new(items.into()),
@@ -612,6 +729,8 @@ impl Pool {
             outstanding: AtomicUsize::new(n),
             idle: AtomicUsize::new(0),
             stop: AtomicBool::new(false),
+            deadline,
+            capped: AtomicBool::new(false),
         })
     }
     pub fn push(&self, item: WorkItem) {
@@ -635,46 +754,70 @@ impl Pool {
             self.idle.fetch_sub(1, Ordering::SeqCst);
         }
     }
-    fn done_one(&self) {
+    pub fn done_one(&self) {
         if self.outstanding.fetch_sub(1, Ordering::SeqCst) == 1 {
             self.cv.notify_all();
         }
     }
 }
 
+pub type LimitsFn = Arc<dyn Fn(usize) -> Limits + Send + Sync>;
+pub type WorkloadFn = Arc<dyn Fn(usize) -> Arc<dyn Workload> + Send + Sync>;
+
+struct PoolSource {
+    pool: Arc<Pool>,
+    limits: LimitsFn,
+    workload: WorkloadFn,
+    results: Arc<Vec<Mutex<Accum>>>,
+}
+impl Source for PoolSource {
+    fn next(&self) -> Option<(WorkItem, Limits, Arc<dyn Workload>, Option<Vec<u8>>)> {
+        let item = self.pool.take()?;
+        let cfg = item.cfg;
+        Some((item, (self.limits)(cfg), (self.workload)(cfg), None))
+    }
+    fn done(&self, cfg: usize, acc: Accum) {
+        self.results[cfg].lock().unwrap().merge(acc);
+        self.pool.done_one();
+    }
+}
+
 /// Explore every configuration exhaustively on `threads` OS threads. `limits(i)` and
 /// `workload(i)` give the bound and the program of configuration i. `order` lists the
-/// configurations heaviest first. `on_done(i, &Accum)` is called once per finished work item
-/// batch (for progress output). Returns one accumulator per configuration.
+/// configurations in the order they should be started. Returns one accumulator per configuration.
 pub fn explore_all(
     ncfg: usize,
     order: Vec<usize>,
     threads: usize,
-    limits: &(dyn Fn(usize) -> Limits + Sync),
-    workload: &(dyn Fn(usize) -> Arc<dyn Workload> + Sync),
-) -> Vec<Accum> {
-    let pool = Pool::new(order.into_iter().map(WorkItem::root).collect());
-    let results: Vec<Mutex<Accum>> = (0..ncfg).map(|_| Mutex::new(Accum::default())).collect();
+    limits: LimitsFn,
+    workload: WorkloadFn,
+    deadline: Option<std::time::Instant>,
+) -> (Vec<Accum>, bool) {
+    let pool = Pool::new(order.into_iter().map(WorkItem::root).collect(), deadline);
+    let results: Arc<Vec<Mutex<Accum>>> = Arc::new((0..ncfg).map(|_| Mutex::new(Accum::default())).collect());
     std::thread::scope(|s| {
         for t in 0..threads.max(1) {
             let pool = pool.clone();
-            let results = &results;
+            let results = results.clone();
+            let limits = limits.clone();
+            let workload = workload.clone();
             std::thread::Builder::new()
                 .name(format!("bdfs-{t}"))
                 .stack_size(8 << 20)
                 .spawn_scoped(s, move || {
-                    while let Some(item) = pool.take() {
-                        let cfg = item.cfg;
-                        let acc = run_item(item, limits(cfg), workload(cfg), Some(pool.clone()), None);
-                        if acc.fatal.is_some() {
-                            pool.stop.store(true, Ordering::SeqCst);
-                        }
-                        results[cfg].lock().unwrap().merge(acc);
-                        pool.done_one();
-                    }
+                    let src = Rc::new(PoolSource { pool: pool.clone(), limits, workload, results });
+                    run_worker(src, Some(pool));
                 })
                 .expect("spawn explorer thread");
         }
     });
-    results.into_iter().map(|m| m.into_inner().unwrap()).collect()
+    let results = Arc::try_unwrap(results).ok().expect("results still shared");
+    let capped = pool.capped.load(Ordering::SeqCst);
+    (results.into_iter().map(|m| m.into_inner().unwrap()).collect(), capped)
+}
+
+/// Wall-clock guard for a whole run (seconds): `VSCHED_WALL_CAP_S`, else the tier default.
+pub fn deadline(default_s: u64) -> std::time::Instant {
+    let s = std::env::var("VSCHED_WALL_CAP_S").ok().and_then(|x| x.parse().ok()).unwrap_or(default_s);
+    std::time::Instant::now() + Duration::from_secs(s)
 }
